@@ -81,10 +81,10 @@ type position struct {
 }
 
 type slot struct {
-	block string // owning block id ("" = top level)
-	name  string // directive site name; site = block + "." + name
-	must  bool   // default spelling is rendered whenever the block is rendered
-	head  bool   // the spelling replaces the block opener
+	block string   // owning block id ("" = top level)
+	name  string   // directive site name; site = block + "." + name
+	must  bool     // default spelling is rendered whenever the block is rendered
+	head  bool     // the spelling replaces the block opener
 	with  []string // sibling slots (alternatives separated by '|') added with their default unless chosen
 	needs []string
 	sp    []spelling // core spellings; sp[0] is the default
